@@ -138,11 +138,10 @@ func valueFromCommandText(commandText string) *variable.Value {
 	if !commandNumberPattern.MatchString(commandText) {
 		return variable.NewString(commandText)
 	}
-	numberValue, err := strconv.ParseFloat(commandText, 64)
-	if err == nil {
-		return variable.NewNumber(numberValue)
-	}
-	return variable.NewString(commandText)
+	// the word is a decimal literal: the only possible error is that it is out of the range of a float64,
+	// in which case it is the number ParseFloat returns (an infinity), like a number literal in an expression
+	numberValue, _ := strconv.ParseFloat(commandText, 64)
+	return variable.NewNumber(numberValue)
 }
 
 var commandNumberPattern = regexp.MustCompile(`^-?[0-9]+(\.[0-9]+)?$`)
